@@ -71,7 +71,7 @@ def run_check(tier, seed):
     if not ok:
         broken.append({'kind': 'harness-build', 'log': out[-3000:]})
         return finish(ev, PROP, findings, broken)
-    n = 350 if tier == 'quick' else 8000
+    n = 700 if tier == 'quick' else 8000
     rng = random.Random(seed)
     cases = [c for c in S.gen_cases(rng, n, frac_malformed=0.0, cap=1 << 17, remap=(0, 0)) if c['wf'] and c['wf']['op'] != 26]
     # directory sweep: every requested size within 8 bytes of every entry boundary (padded and unpadded), plain and plus
